@@ -116,6 +116,8 @@ class Interp:
                 self.blocked(loops, conds)
                 yield WAITING
             elif k == 'wait_until':
+                if st.get('ty', 'int') != 'int':
+                    self.stats['typed_cond'] = True
                 v[st['var']] = 0
                 while True:
                     self.ev(st['n'])            # the condition is evaluated on every resumption
@@ -130,9 +132,13 @@ class Interp:
             elif k == 'fail':
                 raise Stop(FAILED)
             elif k == 'exit_on':
+                if st['cond'].get('ty', 'int') != 'int':
+                    self.stats['typed_cond'] = True
                 if self.cond(ti, st['cond']):
                     raise Stop(EXITED)
             elif k == 'fail_on':
+                if st['cond'].get('ty', 'int') != 'int':
+                    self.stats['typed_cond'] = True
                 if self.cond(ti, st['cond']):
                     raise Stop(FAILED)
             elif k == 'spawn':
@@ -172,10 +178,20 @@ class Interp:
         return trace
 
 # ----------------------------------------------------------------------------- emitter
-def c_cond(ti, c):
+def c_cond(ti, c, typed=True):
     v = 'v%d[%d]' % (ti, c['var'])
-    return {'lt': '%s < %d' % (v, c.get('k', 0)), 'ge': '%s >= %d' % (v, c.get('k', 0)), 'even': '%s %% 2 == 0' % v,
-            'odd': '%s %% 2 == 1' % v}[c['op']]
+    e = {'lt': '%s < %d' % (v, c.get('k', 0)), 'ge': '%s >= %d' % (v, c.get('k', 0)), 'even': '%s %% 2 == 0' % v,
+         'odd': '%s %% 2 == 1' % v}[c['op']]
+    # a controlling expression need not be an int: the same truth value as a 64-bit flag word whose low half is
+    # zero, as a double below 1, as a pointer (used for the PT_* macro arguments only, not for plain if())
+    ty = c.get('ty', 'int') if typed else 'int'
+    if ty == 'u64':
+        return '((%s) ? 0x100000000ULL : 0ULL)' % e
+    if ty == 'dbl':
+        return '((%s) ? 0.25 : 0.0)' % e
+    if ty == 'ptr':
+        return '((%s) ? (void *)&v%d[0] : (void *)0)' % (e, ti)
+    return e
 
 def unbraceable(stmts):
     """exactly one statement that the emitter prints as a single C statement (no nested if: dangling else)"""
@@ -197,7 +213,7 @@ def emit_block(ti, stmts, ind, out, sites):
             # every PT_* macro has to behave as a single statement there
             tb = st.get('nobrace') and unbraceable(st['then'])
             eb = st.get('nobrace') and unbraceable(st['else'])
-            out.append('%sif (%s)%s' % (p, c_cond(ti, st['cond']), '' if tb else ' {'))
+            out.append('%sif (%s)%s' % (p, c_cond(ti, st['cond'], typed=False), '' if tb else ' {'))
             emit_block(ti, st['then'], ind + 1, out, sites)
             out.append('%s%selse%s' % (p, '' if tb else '} ', '' if eb else ' {'))
             emit_block(ti, st['else'], ind + 1, out, sites)
@@ -221,7 +237,15 @@ def emit_block(ti, stmts, ind, out, sites):
             out.append('%sPT_WAIT();' % p)
         elif k == 'wait_until':
             out.append('%sv%d[%d] = 0;' % (p, ti, st['var']))
-            out.append('%sPT_WAIT_UNTIL((ev(%d), v%d[%d]++ >= %d));' % (p, st['n'], ti, st['var'], st['c']))
+            inner = 'v%d[%d]++ >= %d' % (ti, st['var'], st['c'])
+            ty = st.get('ty', 'int')
+            if ty == 'u64':
+                inner = '((%s) ? 0x100000000ULL : 0ULL)' % inner
+            elif ty == 'dbl':
+                inner = '((%s) ? 0.25 : 0.0)' % inner
+            elif ty == 'ptr':
+                inner = '((%s) ? (void *)&v%d[0] : (void *)0)' % (inner, ti)
+            out.append('%sPT_WAIT_UNTIL((ev(%d), %s));' % (p, st['n'], inner))
         elif k == 'exit':
             out.append('%sPT_EXIT();' % p)
         elif k == 'fail':
@@ -332,8 +356,11 @@ class Runner:
 def strategies():
     from hypothesis import strategies as st
 
+    TYPES = ['int'] * 5 + ['u64', 'dbl', 'ptr']
+
     def cond():
-        return st.builds(lambda op, var, k: dict(op=op, var=var, k=k), st.sampled_from(['lt', 'ge', 'even', 'odd']), st.integers(0, 5), st.integers(0, 3))
+        return st.builds(lambda op, var, k, ty: dict(op=op, var=var, k=k, ty=ty), st.sampled_from(['lt', 'ge', 'even', 'odd']), st.integers(0, 5), st.integers(0, 3),
+                         st.sampled_from(TYPES))
 
     import functools
 
@@ -348,7 +375,8 @@ def strategies():
         if free:
             leaf += [st.builds(lambda var, val: dict(k='set', var=var, val=val), st.sampled_from(free), st.integers(0, 3)),
                      st.builds(lambda var: dict(k='inc', var=var), st.sampled_from(free)),
-                     st.builds(lambda n, var, c: dict(k='wait_until', n=n, var=var, c=c), st.integers(100, 199), st.sampled_from(free), st.integers(0, 3))]
+                     st.builds(lambda n, var, c, ty: dict(k='wait_until', n=n, var=var, c=c, ty=ty), st.integers(100, 199), st.sampled_from(free), st.integers(0, 3),
+                               st.sampled_from(TYPES))]
         leaf += [st.builds(lambda c: dict(k='exit_on', cond=c), cond()), st.builds(lambda c: dict(k='fail_on', cond=c), cond())]
         if children:
             leaf += [st.builds(lambda ch, a, b: dict(k='spawn', child=ch, a=a, b=b), st.sampled_from(children), st.integers(200, 249), st.integers(250, 299)),
@@ -403,7 +431,8 @@ def cmd_run(a):
                      ('a child spawned more than once', any(c > 1 for c in stats['spawn_counts'].values())),
                      ('a failing child', stats['child_failed']), ('child yield/wait relayed upward', stats['relayed'] > 0),
                      ('unbraced single-statement body', 'for (' in src and any(l.rstrip().endswith(')') and (l.strip().startswith('if (') or l.strip().startswith('for (')) for l in src.splitlines()) or '\telse\n' in src),
-                     ('two rounds (PT_INIT after exit)', prog['rounds'] == 2)):
+                     ('two rounds (PT_INIT after exit)', prog['rounds'] == 2),
+                     ('a PT_* condition that is a 64-bit word, a double or a pointer', stats.get('typed_cond', False))):
             if v:
                 st['classes'][k] = st['classes'].get(k, 0) + 1
         if not ok:
